@@ -193,6 +193,20 @@ func (e *Env) RawKey(k security.Key) string {
 	return s
 }
 
+// PresenceBarrier waits until every presence notification queued so far has been published (VerifBarrier of the real
+// queue). It reports false when that does not happen within two minutes — the queue's consumer is not running or is
+// stuck — instead of waiting forever; the caller turns that into a violation of its own property.
+func (e *Env) PresenceBarrier() bool {
+	done := make(chan struct{})
+	go func() { e.Svc.VerifPresence().VerifBarrier(); close(done) }()
+	select {
+	case <-done:
+		return true
+	case <-time.After(120 * time.Second):
+		return false
+	}
+}
+
 // Close shuts the broker down.
 func (e *Env) Close() {
 	e.Svc.Close()
